@@ -154,6 +154,53 @@ theorem lsn_asym_step_is_product_formula (n : Nat) (Tre Tim V : Nat → Nat → 
     rw [List.filter_eq_self.mpr (by intro e he; obtain ⟨i, _, rfl⟩ := List.mem_map.mp he; rfl)]
     simp [List.map_map, Function.comp]
 
+/-- The imaginary (oriented) hopping part of the asymmetric linear-swap-network step: whenever two modes meet
+the smaller mode sits on the left qubit (`p < q` at every callback — modes cross exactly once), so the `Ryxxy`
+generator `i(a†_p a_q − a†_q a_p)` always appears in the orientation `p < q`, and its coefficients add up to
+`Σ_{p<q} Im T_pq`: together with `lsn_asym_step_is_product_formula` every term of the hopping matrix occurs
+exactly once. -/
+theorem lsn_imaginary_part (n : Nat) (Tre Tim V : Nat → Nat → Rat) :
+    ((lsnAsymStep n Tre Tim V).map (coeffOfKind 1)).sum = ((allPairs n).map fun k => Tim k.1 k.2).sum ∧
+    (∀ e ∈ lsnAsymStep n Tre Tim V, e.1 = 1 → e.2.1 < e.2.2.1) := by
+  constructor
+  · have hg : ∀ p q : Nat, (fun p q : Nat => if p < q then Tim p q else Tim q p) p q
+        = (fun p q : Nat => if p < q then Tim p q else Tim q p) q p := by
+      intro p q
+      simp only
+      by_cases h1 : p < q
+      · have : ¬ q < p := by omega
+        simp [h1, this]
+      · by_cases h2 : q < p
+        · simp [h1, h2]
+        · have : p = q := by omega
+          subst this; simp
+    have := sum_over_log n false (fun p q : Nat => if p < q then Tim p q else Tim q p) hg
+    have hR : ((allPairs n).map fun k => (fun p q : Nat => if p < q then Tim p q else Tim q p) k.1 k.2)
+        = (allPairs n).map fun k => Tim k.1 k.2 := by
+      apply List.map_congr_left
+      intro k hk
+      rw [mem_allPairs] at hk
+      simp [hk.1]
+    rw [hR] at this
+    rw [← this]
+    unfold lsnAsymStep
+    simp only [List.map_append, List.sum_append, sum_flatMap, List.map_map]
+    have z : (((List.range n).map ((coeffOfKind 1) ∘ fun i => ((3 : Nat), i, i, n - 1 - i, Tre i i))).sum) = 0 := by
+      apply List.sum_eq_zero; intro x hx; obtain ⟨i, _, rfl⟩ := List.mem_map.mp hx; simp [coeffOfKind]
+    rw [z, add_zero]
+    apply congrArg
+    apply List.map_congr_left
+    intro e he
+    have := swapNetwork_call_ascending n false e he
+    simp [coeffOfKind, this]
+  · intro e he h1
+    unfold lsnAsymStep at he
+    simp only [List.mem_append, List.mem_flatMap, List.mem_map, List.mem_range] at he
+    rcases he with ⟨c, hc, hce⟩ | ⟨i, _, rfl⟩
+    · have := swapNetwork_call_ascending n false c hc
+      simp only [List.mem_cons, List.not_mem_nil, or_false] at hce
+      rcases hce with rfl | rfl | rfl <;> simp_all
+    · simp at h1
 /-- One *symmetric* linear-swap-network step: every hopping / density-density generator occurs
 twice with half the coefficient (once in each of the two networks, offsets `False` / `True`), every
 number operator once with the full coefficient — for every number of modes. -/
